@@ -136,17 +136,23 @@ KF7(e, subj) ==
 (* C03-KF8: DictZipBlobStore with entropy_algorithm = Fse: for large records the FSE stage     *)
 (* produces output that its own decoder rejects (a 64 KiB record "compresses" to ~16 KiB), so  *)
 (* get of a live id returns Err while contains / size / len still report the record.  Only the *)
-(* error answer is admitted; returned bytes must still equal the stored record.                *)
+(* error answer (get: Err, get_batch: None / Err) is admitted; returned bytes must still equal   *)
+(* the stored record.                                                                          *)
 FseSubj(subj) == subj.fam = "dictzip" /\ subj.variant \in {"fse", "fse_x4"}
 Get8(id, ok, d) == IF IsLive(id) THEN (ok => d = live[id]) ELSE ~ok
+GetBatch8(ids, ok, r) ==
+    ok => /\ Len(r) = Len(ids)
+          /\ \A i \in 1..Len(ids) : IF IsLive(ids[i]) THEN (r[i].some => r[i].d = live[ids[i]]) ELSE ~r[i].some
 G8(e, subj) ==
     /\ FseSubj(subj)
     /\ \/ e.op = "get"   /\ IsLive(e.id) /\ ~e.ok
        \/ e.op = "probe" /\ \E i \in 1..Len(e.ids) : IsLive(e.ids[i]) /\ ~e.get[i].ok
+       \/ e.op = "get_batch" /\ ~GetBatchOk(e.ids, e.ok, e.r) /\ GetBatch8(e.ids, e.ok, e.r)
 KF8(e, subj) ==
     /\ G8(e, subj)
     /\ \/ e.op = "get"   /\ Same
        \/ e.op = "probe" /\ ProbeWith(e.ids, e.get, e.contains, e.size, e.len, Get8, SizeOk, LenOk)
+       \/ e.op = "get_batch" /\ GetBatch8(e.ids, e.ok, e.r) /\ Same
 
 (* guard (state predicate) and action of each deviation *)
 DevApplies(id, e, subj) ==
